@@ -32,8 +32,8 @@ KSUF = [S(0), S(1), S(0xffff)]
 QSUF = [S(0), S(1), S(2), S(0xfffe), S(0xffff)]
 KEYS = sorted(p + s for p in PRESENT for s in KSUF)
 QKEYS = sorted(p + s for p in PRESENT + ABSENT for s in QSUF)
-VALS_QUICK = [4, (1 << 48) - 1]
-VALS_THOROUGH = [4, (1 << 48) - 1]
+VALS_QUICK = [0, (1 << 48) - 1]
+VALS_THOROUGH = [0, (1 << 48) - 1]
 POSITIONS = [0, 4, (1 << 48) - 1, 1 << 50]
 
 
@@ -244,6 +244,32 @@ def transitions(state, vals, out):
     chk('clear', ix, {})
     succ.append({})
     n += 1
+    # two steps: a key is deleted (its prefix may lose its last key) and a
+    # key with the same prefix is inserted; clear and insert
+    for k in state:
+        for k2 in KEYS:
+            if k2[:6] != k[:6]:
+                continue
+            ix = build_direct(state)
+            del ix[k]
+            ix[k2] = vals[0]
+            nxt = dict(state)
+            del nxt[k]
+            nxt[k2] = vals[0]
+            chk('del+set %s %s' % (k.hex(), k2.hex()), ix, nxt)
+            if call(ix.get, k2) != ('ok', vals[0]) or (k2 in ix) is not True:
+                out['violations'].append((
+                    'C19.step', 'C19.step:del+set-lookup',
+                    dict(state={x.hex(): v for x, v in state.items()},
+                         op='del %s set %s' % (k.hex(), k2.hex())),
+                    dict(got=repr(call(ix.get, k2))), 1))
+            n += 1
+    for k2 in KEYS[:1] + KEYS[-1:]:
+        ix = build_direct(state)
+        ix.clear()
+        ix[k2] = vals[0]
+        chk('clear+set %s' % k2.hex(), ix, {k2: vals[0]})
+        n += 1
     # update(mapping) with two keys of different prefixes
     ix = build_direct(state)
     upd = {KEYS[0]: vals[-1], KEYS[-1]: vals[0]}
@@ -326,7 +352,7 @@ def run(rep, tier, seed, workers):
         vals = [4]
         allvals = VALS_QUICK
     else:
-        vals = VALS_THOROUGH
+        vals = VALS_THOROUGH + [4]
         allvals = VALS_THOROUGH
     # quick: all 512 key subsets, one value per key (alternating so that both
     # values occur), all transitions with both values.
